@@ -133,7 +133,7 @@ AltIKeys ==
     <<"address", "amount", "Type">> }
 
 AltIAddr == {"B", "Z", "BAD"}
-AltIType == {"PEG", "pFCT", "pXYZ", "USD", "pusd", "num", "Peg"}
+AltIType == {"PEG", "pFCT", "pXYZ", "USD", "pusd", "num", "Peg", "esc:pUSD"}       \* esc: the known ticker written with a JSON \\u escape
 AltIAmt ==
   { Amt(<<0>>), Amt(<<2>>), Amt(I63m1), Amt(MaxInt64), Amt(TwoTo63), Amt(U64), Amt(TwoTo64),
     Amt(D18),
@@ -163,7 +163,7 @@ AltTrs ==
     << TrKs(<<"address", "Amount">>, "B", Amt(<<1>>)) >>,
     << TrKs(<<"ADDRESS", "amount">>, "B", Amt(<<1>>)) >> }
 
-AltConv == {"pUSD", "pFCT", "pXYZ", "USD", "num", "peg"}
+AltConv == {"pUSD", "pFCT", "pXYZ", "USD", "num", "peg", "esc:pEUR", "esc:PEG"}
 
 (* second transaction of the batch: <<>> (none) or one of these *)
 AltSecond ==
